@@ -4,10 +4,11 @@ import facts
 
 ID = "C14"
 PROP = {
-    "modules": ["Gnmi.Props.C14"],
+    "modules": ["Gnmi.Props.C14", "Gnmi.Props.C03Sim"],
     "theorems": ["Gnmi.C14." + t for t in [
         "frame", "query_frame", "step_cfg", "remove_forgets", "remove_event_covers", "reset_clears",
-        "reset_event_covers", "dropRoots_events"]] + ["Gnmi.Cache.reset_ok", "Gnmi.Cache.step_sinv"],
+        "reset_event_covers", "dropRoots_events", "reset_initial_metadata"]] + ["Gnmi.Cache.reset_ok", "Gnmi.Cache.step_sinv",
+        "Gnmi.Cache.reset_flags", "Gnmi.Cache.generateMetaUpdates_flags", "Gnmi.Feed.reset_sim", "Gnmi.C03.cache_replay_unknown_empty"],
     "components": [ca_component("c14")],
     "monitor": "spec", "level": "proof",
     "trusted_base": CACHE_TB, "assumptions": CACHE_ASSUMPTIONS + [
@@ -19,7 +20,10 @@ PROP = {
         "level_text": "Lean 4 theorems over the multi-target cache model, for every reachable state: frame (no API call addressed to T changes "
                       "anything stored or returned for U != T), remove_forgets (unknown to HasTarget/Query/GnmiUpdate afterwards, exactly one "
                       "whole-target delete announced, which matches every leaf index of T), reset_clears (only metadata leaves remain, leaf counters "
-                      "zero and truthful, latest timestamp cleared, a delete T/<root>/* announced for every non-metadata leaf that was stored). "
+                      "zero and truthful, latest timestamp cleared, a delete T/<root>/* announced for every non-metadata leaf that was stored), "
+                      "reset_initial_metadata (not synced, not connected, no address, no connect error, counters zero: the refresh inside Reset writes back "
+                      "exactly what it read), and — from the whole-cache feed simulation of C03 — a subscriber-side replica built from the announced "
+                      "events alone follows Reset and Remove exactly (Feed.reset_sim, cache_replay_unknown_empty: nothing of a removed target survives). "
                       "Tied to cache/cache.go by the ca correspondence with 1-3 targets, overlapping path sets and interleaved lifecycle calls.",
         "level_note": "Trusted: Lean kernel; model validated by the ca correspondence; Go runtime. Assumes non-empty target names, serialised writers.",
         "technique": "Lean 4 proof (frame lemmas over the target map, invariant-based Reset theorem) + model/implementation correspondence",
